@@ -1,1 +1,95 @@
-From InvokeVerif Require Import Corr.C08Corr.
+(** C08 -- command execution always terminates, leaving nothing behind.
+    Statements only; proofs in Proofs/RunnerSM_facts.v, Proofs/C08_sm.v,
+    Proofs/RunnerSM_sweep.v.  All statements are about the RunnerSM model
+    (event scripts universally quantified); what the model cannot exhibit is
+    listed in harness/props/c08.py ([not_modelled]). *)
+From InvokeVerif Require Import Model.RunnerSM Spec.C08Spec Corr.RunnerCorr.
+From InvokeVerif Require Import Proofs.RunnerSM_facts Proofs.C08_sm Proofs.RunnerSM_sweep.
+
+(** Whenever the process comes to an end (exit, kill on timeout, exit right
+    after a forwarded interrupt) and the readers get EOF -- for EVERY event
+    script and configuration -- run()/join() terminates and by then no worker is
+    running, the timer is not armed, program_finished is set and stop() was called. *)
+Theorem C08_terminates_when_process_ends :
+  forall c script,
+    start_raises c = false -> fair c = true -> process_ends c script = true ->
+    clean (run_sm c script).
+Proof. exact terminates_when_process_ends. Qed.
+
+(** The invariant behind it (the variant: once past the wait loop the main
+    thread never returns to it, and every join todo list is duplicate-free, so at
+    most 3 joins remain). *)
+Theorem C08_invariant :
+  forall c script, start_raises c = false -> Inv c (fst (run_events c (advance c (init c)) script)).
+Proof. exact invariant_holds. Qed.
+
+Theorem C08_join_list_bounded : forall l : list who, NoDup l -> List.length l <= 3.
+Proof. exact nodup_who_length. Qed.
+
+(** A stdout/stderr worker dies while the process is still running: whatever
+    happens next (pipes held open or not, the process ending or not) the call
+    ends, reports that failure, and at most one 1 s join timeout is spent. *)
+Theorem C08_dead_worker_bounded_partial :
+  forall c script w x,
+    start_raises c = false -> death_while_running c script = Some (w, x) -> w <> WIn ->
+    exists o, s_pc (fst (run_sm c script)) = PDone o /\ is_failure_report o = true /\
+              n_expired (snd (run_sm c script)) <= 1.
+Proof. exact dead_worker_bounded_partial. Qed.
+
+(** ... FALSE for the stdin worker (missing in the partial theorem: w = WIn; F-C08c):
+    the join of the stdout worker has no timeout. *)
+Theorem C08_dead_worker_bounded_refuted :
+  exists c script w x, start_raises c = false /\ death_while_running c script = Some (w, x) /\
+    s_pc (fst (run_sm c script)) = PHang.
+Proof. exact dead_worker_bounded_refuted. Qed.
+
+(** The shell cannot be started: reported, nothing started, nothing killed ...
+    (guard: the failure is raised in the calling process, i.e. no pty) *)
+Theorem C08_start_failure_reported_partial :
+  forall c script,
+    start_raises c = true ->
+    let s := run_sm c script in
+    s_pc (fst s) = PDone OStartError /\ (forall w, wget (fst s) w = WAbsent) /\
+    s_timer (fst s) = TNone /\ n_kills (snd s) = 0.
+Proof. exact start_failure_reported. Qed.
+
+(** ... FALSE under a pty (F-C08a): the parent carries on as if started. *)
+Theorem C08_start_failure_reported_refuted :
+  exists c script, c_start_fail c = true /\ s_pc (fst (run_sm c script)) <> PDone OStartError.
+Proof. exact start_failure_refuted. Qed.
+
+(** "the child has been reaped" / "a documented outcome": FALSE in two corners *)
+Theorem C08_reaped_refuted :          (* F-C08d *)
+  exists c script, start_raises c = false /\ fair c = true /\ process_ends c script = true /\
+    s_reaped (fst (run_sm c script)) = false.
+Proof. exact reaped_refuted. Qed.
+
+Theorem C08_outcome_documented_refuted :   (* F-C08b *)
+  exists c script, start_raises c = false /\ fair c = true /\ process_ends c script = true /\
+    s_pc (fst (run_sm c script)) = PDone OChildProcessError.
+Proof. exact outcome_documented_refuted. Qed.
+
+(** Flagship shape, as a finite sweep (a TEST, not the property): for all 128
+    configurations and all 2380 scripts of at most 3 events over a 13-event
+    alphabet, outside the four catalogued defect regions the model satisfies
+    the executable spec. *)
+Theorem C08_run_meets_spec_bounded_3 :
+  sweep ok08 (configs true) (scripts_upto alphabet08 3) = true.
+Proof. exact sweep08_3. Qed.
+
+(** Non-vacuity *)
+Example C08_ex_terminates :     (* output, exit 3, timer after the exit, EOFs: ends, clean *)
+  let c := mkCfg false true true false false false false false in
+  let script := [EChunk WOut; EExit 3%Z; ETimer; EEof WErr; EEof WOut] in
+  start_raises c = false /\ fair c = true /\ process_ends c script = true /\
+  observe (run_sm c script) =
+    mkSmObs (Some OTimedOut) 1 1 0 1 true [] false true true 1 0.
+Proof. vm_compute. auto. Qed.
+
+Example C08_ex_dead_worker :    (* stderr worker dies, stdout pipe held: 1 s join timeout, reported *)
+  let c := mkCfg false false false false false false true false in
+  let script := [EChunk WOut; EExc WErr XWatcher] in
+  death_while_running c script = Some (WErr, XWatcher) /\
+  s_pc (fst (run_sm c script)) = PDone OFailure /\ n_expired (snd (run_sm c script)) = 1 /\
+  o_alive (observe (run_sm c script)) = [WOut].
+Proof. vm_compute. auto. Qed.
